@@ -869,6 +869,8 @@ type addState struct {
 	events  []string
 	dZero   int // 1: d.Seconds==0&&d.Nanos==0 known true; -1 known false; 0 unknown
 	path    []string
+	scalars map[types.Object]lin // integer locals (and helper parameters) as linear terms of the inputs
+	ptr     bool                 // local holds the address of a fresh composite literal (&T{...})
 }
 
 func (s *addState) clone() *addState {
@@ -879,6 +881,10 @@ func (s *addState) clone() *addState {
 	}
 	n.events = append([]string(nil), s.events...)
 	n.path = append([]string(nil), s.path...)
+	n.scalars = map[types.Object]lin{}
+	for k, v := range s.scalars {
+		n.scalars[k] = v
+	}
 	return &n
 }
 
@@ -920,6 +926,17 @@ func runTimepbAdd(c *core.Ctx, pkg *packages.Package, fns map[string]*ast.FuncDe
 			}
 		}
 		switch t := e.(type) {
+		case *ast.Ident:
+			if v, ok := st.scalars[info.ObjectOf(t)]; ok {
+				return v
+			}
+		case *ast.CallExpr:
+			// integer conversions keep the value (the sums involved stay far inside int32/int64 for valid inputs)
+			if tv, ok := info.Types[t.Fun]; ok && tv.IsType() && len(t.Args) == 1 {
+				if b, ok := tv.Type.Underlying().(*types.Basic); ok && b.Info()&types.IsInteger != 0 {
+					return linOf(t.Args[0], st)
+				}
+			}
 		case *ast.SelectorExpr:
 			if id, ok := ast.Unparen(t.X).(*ast.Ident); ok {
 				switch {
@@ -945,6 +962,14 @@ func runTimepbAdd(c *core.Ctx, pkg *packages.Package, fns map[string]*ast.FuncDe
 					return lin{l.tS + r.tS, l.dS + r.dS, l.tN + r.tN, l.dN + r.dN, l.c + r.c, true}
 				case token.SUB:
 					return lin{l.tS - r.tS, l.dS - r.dS, l.tN - r.tN, l.dN - r.dN, l.c - r.c, true}
+				case token.MUL:
+					isConst := func(x lin) bool { return x.tS == 0 && x.dS == 0 && x.tN == 0 && x.dN == 0 }
+					if isConst(r) {
+						l, r = r, l
+					}
+					if isConst(l) {
+						return lin{l.c * r.tS, l.c * r.dS, l.c * r.tN, l.c * r.dN, l.c * r.c, true}
+					}
 				}
 			}
 		case *ast.UnaryExpr:
@@ -1044,6 +1069,115 @@ func runTimepbAdd(c *core.Ctx, pkg *packages.Package, fns map[string]*ast.FuncDe
 		return th, el, nil
 	}
 
+	// callHelper evaluates a package function over integers on every path: parameters are bound to the argument
+	// terms, the body may branch on tests of the nanosecond sum, assign integer locals and return integer terms.
+	type helperOut struct {
+		st  *addState
+		val lin
+	}
+	var callHelper func(hd *ast.FuncDecl, args []ast.Expr, st *addState) ([]helperOut, error)
+	callHelper = func(hd *ast.FuncDecl, args []ast.Expr, st *addState) ([]helperOut, error) {
+		if hd.Body == nil || hd.Recv != nil {
+			return nil, und("call of %s", hd.Name.Name)
+		}
+		var params []*ast.Ident
+		for _, f := range hd.Type.Params.List {
+			params = append(params, f.Names...)
+		}
+		if len(params) != len(args) || hd.Type.Results == nil || len(hd.Type.Results.List) != 1 {
+			return nil, und("call of %s: arity", hd.Name.Name)
+		}
+		ns := st.clone()
+		for i, p := range params {
+			v := linOf(args[i], st)
+			if !v.ok {
+				return nil, und("argument %s of %s is not linear in the inputs", types.ExprString(args[i]), hd.Name.Name)
+			}
+			ns.scalars[info.ObjectOf(p)] = v
+		}
+		var outs []helperOut
+		var run func(list []ast.Stmt, st *addState) ([]*addState, error)
+		run = func(list []ast.Stmt, st *addState) ([]*addState, error) {
+			cur := []*addState{st}
+			for _, s := range list {
+				s = desugarSwitch(s)
+				var next []*addState
+				for _, st := range cur {
+					switch t := s.(type) {
+					case *ast.ReturnStmt:
+						if len(t.Results) != 1 {
+							return nil, und("%s: return arity", hd.Name.Name)
+						}
+						v := linOf(t.Results[0], st)
+						if !v.ok {
+							return nil, und("%s returns %s, not linear in the inputs", hd.Name.Name, types.ExprString(t.Results[0]))
+						}
+						outs = append(outs, helperOut{st, v})
+					case *ast.IfStmt:
+						if t.Init != nil {
+							return nil, und("%s: if with init", hd.Name.Name)
+						}
+						th, el, err := evalCond(t.Cond, st)
+						if err != nil {
+							return nil, err
+						}
+						if th != nil {
+							o, err := run(t.Body.List, th)
+							if err != nil {
+								return nil, err
+							}
+							next = append(next, o...)
+						}
+						if el != nil {
+							switch e := t.Else.(type) {
+							case nil:
+								next = append(next, el)
+							case *ast.BlockStmt:
+								o, err := run(e.List, el)
+								if err != nil {
+									return nil, err
+								}
+								next = append(next, o...)
+							case *ast.IfStmt:
+								o, err := run([]ast.Stmt{e}, el)
+								if err != nil {
+									return nil, err
+								}
+								next = append(next, o...)
+							}
+						}
+					case *ast.AssignStmt:
+						id, ok := t.Lhs[0].(*ast.Ident)
+						if !ok || len(t.Lhs) != 1 || len(t.Rhs) != 1 || (t.Tok != token.DEFINE && t.Tok != token.ASSIGN) {
+							return nil, und("%s: assignment form", hd.Name.Name)
+						}
+						v := linOf(t.Rhs[0], st)
+						if !v.ok {
+							return nil, und("%s: %s is not linear in the inputs", hd.Name.Name, types.ExprString(t.Rhs[0]))
+						}
+						n2 := st.clone()
+						n2.scalars[info.ObjectOf(id)] = v
+						next = append(next, n2)
+					case *ast.EmptyStmt:
+						next = append(next, st)
+					default:
+						return nil, und("%s: statement %T", hd.Name.Name, s)
+					}
+				}
+				cur = next
+			}
+			return cur, nil
+		}
+		fall, err := run(hd.Body.List, ns)
+		if err != nil {
+			return nil, err
+		}
+		if len(fall) > 0 {
+			return nil, und("%s: a path falls off the end", hd.Name.Name)
+		}
+		return outs, nil
+	}
+
 	var exec func(list []ast.Stmt, st *addState) ([]*addState, error)
 	exec = func(list []ast.Stmt, st *addState) ([]*addState, error) {
 		cur := []*addState{st}
@@ -1112,8 +1246,35 @@ func runTimepbAdd(c *core.Ctx, pkg *packages.Package, fns map[string]*ast.FuncDe
 								continue
 							}
 						}
+						isPtr := false
+						if u, ok := rhs.(*ast.UnaryExpr); ok && u.Op == token.AND {
+							if cl2, ok := ast.Unparen(u.X).(*ast.CompositeLit); ok {
+								rhs, isPtr = cl2, true
+							}
+						}
+						// x := helper(args): a function of this package over integers, evaluated on every path
+						if call, ok := rhs.(*ast.CallExpr); ok {
+							if f, ok := core.CalleeObj(info, call).(*types.Func); ok && f.Pkg() == pkg.Types && fns[f.Name()] != nil && f.Name() != "overflowPanic" {
+								outs, err := callHelper(fns[f.Name()], call.Args, st)
+								if err != nil {
+									return nil, err
+								}
+								for _, o := range outs {
+									o.st.scalars[info.ObjectOf(lhs)] = o.val
+									next = append(next, o.st)
+								}
+								continue
+							}
+						}
+						if v := linOf(rhs, st); v.ok {
+							if _, isInt := info.TypeOf(lhs).Underlying().(*types.Basic); isInt {
+								ns.scalars[info.ObjectOf(lhs)] = v
+								next = append(next, ns)
+								continue
+							}
+						}
 						if cl, ok := rhs.(*ast.CompositeLit); ok {
-							ns.local, ns.copyOfT = lhs.Name, false
+							ns.local, ns.copyOfT, ns.ptr = lhs.Name, false, isPtr
 							ns.fields = map[string]lin{"Seconds": {ok: true}, "Nanos": {ok: true}}
 							for _, el := range cl.Elts {
 								kv, ok := el.(*ast.KeyValueExpr)
@@ -1187,11 +1348,11 @@ func runTimepbAdd(c *core.Ctx, pkg *packages.Package, fns map[string]*ast.FuncDe
 						// args: t, &local, DurationIsNegative(d)
 						a0, _ := ast.Unparen(call.Args[0]).(*ast.Ident)
 						okArgs := a0 != nil && a0.Name == tP
-						if u, ok := ast.Unparen(call.Args[1]).(*ast.UnaryExpr); ok && u.Op == token.AND {
+						if u, ok := ast.Unparen(call.Args[1]).(*ast.UnaryExpr); ok && u.Op == token.AND && !st.ptr {
 							if id, ok := ast.Unparen(u.X).(*ast.Ident); !ok || id.Name != st.local {
 								okArgs = false
 							}
-						} else {
+						} else if id, ok := ast.Unparen(call.Args[1]).(*ast.Ident); !(ok && st.ptr && id.Name == st.local) {
 							okArgs = false
 						}
 						if c2, ok := ast.Unparen(call.Args[2]).(*ast.CallExpr); ok {
@@ -1222,7 +1383,7 @@ func runTimepbAdd(c *core.Ctx, pkg *packages.Package, fns map[string]*ast.FuncDe
 		return cur, nil
 	}
 
-	init := &addState{fields: map[string]lin{}, lo: -nanoMax, hi: 2 * nanoMax}
+	init := &addState{fields: map[string]lin{}, scalars: map[types.Object]lin{}, lo: -nanoMax, hi: 2 * nanoMax}
 	// inputs: t.Nanos in [0, 1e9-1], d.Nanos in [-(1e9-1), 1e9-1]
 	init.lo, init.hi = 0+(-nanoMax), nanoMax+nanoMax
 	fall, err := exec(fd.Body.List, init)
@@ -1247,6 +1408,11 @@ func runTimepbAdd(c *core.Ctx, pkg *packages.Package, fns map[string]*ast.FuncDe
 		var lid *ast.Ident
 		if ok && u.Op == token.AND {
 			lid, _ = ast.Unparen(u.X).(*ast.Ident)
+		}
+		if id, isId := ast.Unparen(r.expr).(*ast.Ident); isId && st.ptr && id.Name == st.local {
+			lid = id // the local already is the address of the fresh value
+		} else if st.ptr {
+			lid = nil
 		}
 		if lid == nil || lid.Name != st.local || st.local == "" {
 			c.Fail("TIME.fresh", con, fmt.Sprintf("returns %s, which is not the address of a value created in this call", types.ExprString(r.expr)), rp, src)
